@@ -665,3 +665,22 @@ package immutable
 //@   ensures [time_of_a_new_min_comes_with_it] old(other.values[0]) < old(m.values[0]) ==> m.values[2] == old(other.values[2])
 //@   ensures [time_of_a_new_max_comes_with_it] old(other.values[1]) > old(m.values[1]) ==> m.values[3] == old(other.values[3])
 //@   ensures [count_adds_up] m.values[5] == old(m.values[5]) + old(other.values[5])
+
+// ================================================================ C03 / C01: committing new files
+// New data files are written under a temporary name and committed by renaming them. RenameTmpFiles reports success only
+// if EVERY file that still carried the temporary suffix was renamed - to its own name minus that suffix; the first failure
+// is returned (the callers - flush, compaction, merge - remove the log / the old files only after a success).
+//@ prop C03 C01
+//@ func RenameTmpFiles
+//@   ghost pending bool = false
+//@   ghost tmp string = ""
+//@   call .Path
+//@     set tmp = ret0
+//@   call IsTempleFile
+//@     set pending = ret0
+//@   call .Rename
+//@     requires [only_files_with_the_temporary_suffix_are_renamed] pending
+//@     set pending = (ret0 != nil)
+//@   ensures [success_means_every_temporary_file_was_renamed] result == nil ==> !pending
+//@   loop 1
+//@     invariant !pending
